@@ -19,6 +19,7 @@ import numpy as np
 ID = "C12"
 FLAVOUR = "plain"
 LEVEL = "exploration"
+THOROUGH_MULT = 3.0       # deepens the sampled strata of the thorough tier (measured: about ten minutes on 16 cores)
 RULE = (
     "seeded generator, one file (or one edit history) per case.  FASTA: 0-6 entries, headers 0-120 printable "
     "chars with > @ + ; inside/at the start and unicode, sequences nucleotide/ambiguous/protein with * /raw, "
